@@ -272,7 +272,7 @@ OPTS = "(opts t f f f 0 f)"
 
 def model_line(C, calls, sched):
     """calls: [(label, atom)], sched: {goal id: selection code}."""
-    cs = " ".join("(%d %s %d)" % (C.atoms[a], LABELS[l], C.atoms[a]) for l, a in calls)
+    cs = " ".join("(%d %s)" % (C.atoms[a], LABELS[l]) for l, a in calls)
     sc = " ".join("(%d %s)" % (g, " ".join(map(str, code))) for g, code in sorted(sched.items()))
     return "GROUND %s %s (%s) (%s) %s %d" % (OPTS, C.prog, cs, sc, C.ranks, C.fuel)
 
